@@ -389,21 +389,35 @@ def r02_5(prog, rep, m, F, fn):
     rep.rule("R02.5", "SIBLINGS-AGREE: OFS_DELTA base = own offset - delta at every reader; writer stores own offset - base offset for an already written base")
     g = fn("PackChunkGenerator._pack_data_chunks")
     node = g.node
-    tries = [t for t in ast.walk(node) if isinstance(t, ast.Try) and any("self.entries[" in norm(s) for s in t.body)]
-    ok = False
-    det = "no lookup of the base in self.entries"
-    if tries:
-        t = tries[0]
-        look = [s for s in t.body if isinstance(s, ast.Assign) and "self.entries[unpacked.delta_base]" in norm(s.value)]
-        base_var = look[0].targets[0].elts[0].id if look and isinstance(look[0].targets[0], ast.Tuple) else None
-        h_ref = any(isinstance(h.type, ast.Name) and h.type.id == "KeyError" and any(isinstance(s, ast.Assign) and norm(s) == "type_num = REF_DELTA" for s in h.body)
-                    and not any("OFS_DELTA" in norm(s) for s in h.body) for h in t.handlers)
-        e_ofs = any(norm(s) == "type_num = OFS_DELTA" for s in t.orelse)
-        raws = [s for s in t.orelse if isinstance(s, ast.Assign) and norm(s.targets[0]) == "raw"]
-        dist = raws and isinstance(raws[0].value, ast.Tuple) and norm(raws[0].value.elts[0]) == f"offset - {base_var}"
-        only = [x for x in ast.walk(node) if isinstance(x, ast.Assign) and norm(x) == "type_num = OFS_DELTA"]
-        ok = bool(look) and h_ref and e_ofs and bool(dist) and len(only) == 1
-        det = f"lookup {bool(look)}, KeyError->REF_DELTA {h_ref}, else->OFS_DELTA {e_ofs}, distance offset - {base_var}: {bool(dist)}, OFS assignments {len(only)}"
+    # CFG formulation (independent of how the three-way choice is spelled): L = the lookup `<base>, _ = self.entries[<delta base>]`;
+    # a statement that uses the constant OFS_DELTA as a value is reachable only after L succeeded (never from L's exception
+    # edge without passing L again), one that uses REF_DELTA is reachable from that exception edge, and the distance is
+    # `offset - <base>`
+    gg = cfg_of(prog, g)
+    look = [i for i, n in gg.nodes.items() if n.kind == "stmt" and isinstance(n.ast, ast.Assign) and isinstance(n.ast.value, ast.Subscript)
+            and norm(n.ast.value.value) == "self.entries" and "delta_base" in norm(n.ast.value.slice)]
+    base_var = None
+    if look:
+        t0 = gg.nodes[look[0]].ast.targets[0]
+        base_var = t0.elts[0].id if isinstance(t0, ast.Tuple) and isinstance(t0.elts[0], ast.Name) else (t0.id if isinstance(t0, ast.Name) else None)
+
+    def uses_const(n, cname):
+        a_ = n.ast
+        if n.kind != "stmt" or not isinstance(a_, (ast.Assign, ast.Return, ast.AnnAssign)) or getattr(a_, "value", None) is None:
+            return False
+        return any(isinstance(x, ast.Name) and x.id == cname and isinstance(x.ctx, ast.Load) for x in ast.walk(a_.value))
+    ofs = [i for i, n in gg.nodes.items() if uses_const(n, "OFS_DELTA")]
+    refd = [i for i, n in gg.nodes.items() if uses_const(n, "REF_DELTA")]
+    fail = [b_ for i in look for b_, l in gg.succ[i] if l in EXC_LABELS]
+    okk = [b_ for i in look for b_, l in gg.succ[i] if l not in EXC_LABELS]
+    from_fail = reach(gg, fail, avoid=set(look), include_srcs=True) if fail else set()
+    no_look = reach(gg, [gg.entry], avoid=set(look), include_srcs=True)
+    dist = [i for i, n in gg.nodes.items() for e in node_exprs(n) for x in ast.walk(e) if isinstance(x, ast.BinOp) and isinstance(x.op, ast.Sub)
+            and norm(x) == f"offset - {base_var}"]
+    ok = bool(look) and len(ofs) >= 1 and not any(i in from_fail or i in no_look for i in ofs) and any(i in from_fail for i in refd) \
+        and bool(dist) and not any(i in from_fail or i in no_look for i in dist)
+    det = f"lookup {bool(look)} (base `{base_var}`), OFS_DELTA uses {len(ofs)} (reachable without a successful lookup: " \
+          f"{[gg.nodes[i].line for i in ofs if i in from_fail or i in no_look]}), REF_DELTA after a failed lookup: {any(i in from_fail for i in refd)}, distance `offset - {base_var}`: {bool(dist)}"
     rep.ob("R02.5", PACK, g.qual, "OFS_DELTA is chosen only when the base is already in self.entries, with distance `offset - base_offset`; otherwise REF_DELTA", ok, det, node.lineno)
     # entries recorded before the offset advances, inside the record loop
     loop = [lp for lp in ast.walk(node) if isinstance(lp, ast.For) and norm(lp.iter) in ("enumerate(records)", "records")]
